@@ -45,6 +45,33 @@ func c19Interleaved(c *Ctx) {
 	for i := range ss {
 		last[i] = digest(ss[i])
 	}
+	{
+		// two more worlds that know the same named types under different IDs: what each reports and prints about
+		// its component types is its own registry, whichever world was asked first
+		ws := []*ecs.World{}
+		for k := 0; k < 2; k++ {
+			w := ecs.NewWorld()
+			keys := []string{"S0", "S1", "S2", "S3", "S4", "S5", "S6", "S7"}
+			Shuffle(c.R, keys)
+			ids := []ecs.ID{}
+			for _, key := range keys[:3+c.R.Intn(5)] {
+				ids = append(ids, ecs.TypeID(&w, TypeOfKey(key)))
+			}
+			w.NewEntity(ids[0], ids[1])
+			w.NewEntity(ids[2])
+			w.NewEntity(ids[1], ids[2])
+			ws = append(ws, &w)
+		}
+		for round := 0; round < 2; round++ {
+			for k, w := range ws {
+				if msg := statsNames(w); msg != "" {
+					c.Fail(Violation{Kind: "crosstalk.stats", Msg: fmt.Sprintf("helper world %d, round %d: %s", k, round, msg)}, nil)
+					return
+				}
+				c.Cov.N["stats_names_checked"]++
+			}
+		}
+	}
 	if c.Case%3 == 0 {
 		// one world keeps the query of a batch creation open (it is inspecting what it created) while another world
 		// runs more than a thousand batch operations; then the first one finishes its query
